@@ -580,6 +580,7 @@ func WriteSiteTable(root string, res *Result, instrumented bool) error {
 	sb.WriteString("}\n\n")
 	fmt.Fprintf(&sb, "// Instrumented is false in the degraded (uninstrumented) build.\nconst Instrumented = %v\n", instrumented)
 	fmt.Fprintf(&sb, "\n// UsesSync: some library file imports package sync (rewritten to the cooperative shim).\nconst UsesSync = %v\n", res.UsesSync)
+	fmt.Fprintf(&sb, "\n// UsesAtomic: some library file imports sync/atomic (rewritten to the zatomic shim).\nconst UsesAtomic = %v\n", res.UsesAtomic)
 	fmt.Fprintf(&sb, "\n// UsesTime: some library file imports package time (rewritten to the ztime shim).\nconst UsesTime = %v\n", res.UsesTime)
 	return os.WriteFile(filepath.Join(root, "internal", "zsimrt", "sites_gen.go"), []byte(sb.String()), 0o644)
 }
